@@ -19,6 +19,7 @@ where
         "fri" => symf::fri::family::<F>(ctx),
         "lookup" => symf::lookup::family::<F>(ctx),
         "merkle" => symf::merkle::family::<F>(ctx),
+        "codec" => symf::codec::family(ctx),
         "plonk" => symf::plonk::family::<F>(ctx),
         "plonkv" => symf::plonkv::family::<F>(ctx),
         "recursion" => symf::recursion::family::<F>(ctx),
